@@ -5,7 +5,7 @@ import ast
 import math
 from fractions import Fraction
 
-from ..core import Run, AnalysisError, norm
+from ..core import Run, AnalysisError, PKG, norm, dotted, norm
 from ..dim import World
 from ..units import Dim, si_value
 
@@ -68,6 +68,8 @@ def check(run: Run) -> None:
     run.rule("R2", "each constant's folded SI value is within its stated precision of the CODATA/IAU reference")
     run.rule("R3", "the constants satisfy the identities R=kB*NA, F=e*NA, hbar=h/2pi, eps0*mu0*c^2=1, Z0=mu0*c, sigma=2pi^5kB^4/(15h^3c^2), b=hc/(4.965114kB)")
     run.rule("R4", "every reference constant is still defined and every name in __all__ is a defined constant")
+    run.rule("R5", "a constant's stored value cannot change after import: the unit system's per-quantity tables are written only by Quantity.__init__, for `self`")
+    run.rule("I3", "quantity names (the keys of those tables) are unique process-wide: one counter table, advanced only by next_id")
     w = World(run.src)
     mod = run.src.need(MODULE)
     env = w.env(MODULE)
@@ -140,3 +142,33 @@ def check(run: Run) -> None:
                     f"__all__ exports names that are not constants defined in the module: {sorted(exported - public)}")
     run.notes["public_but_not_in___all__"] = sorted(public - exported)  # informational: the property speaks of exported constants only
     run.notes["constants"] = len(consts)
+    # R5: who may write the value / dimension tables of the unit system
+    SETTERS = {"set_quantity_scale_factor", "set_quantity_dimension", "set_global_relative_scale_factor", "set_global_dimension"}
+    TABLES = {"_quantity_scale_factors", "_quantity_dimension_map", "_quantity_scale_factors_global", "_quantity_dimensional_equivalence_map_global"}
+    nset = 0
+    for m in run.src.mods.values():
+        if not m.name.startswith(PKG):
+            continue
+        owner = None
+        if m.name == PKG + ".core.symbols.quantities":
+            cls = next((c for c in m.tree.body if isinstance(c, ast.ClassDef) and c.name == "Quantity"), None)
+            owner = next((f for f in (cls.body if cls else []) if isinstance(f, ast.FunctionDef) and f.name == "__init__"), None)
+        inside = {id(x) for x in ast.walk(owner)} if owner is not None else set()
+        for x in ast.walk(m.tree):
+            hit = None
+            if isinstance(x, ast.Call) and isinstance(x.func, ast.Attribute) and x.func.attr in SETTERS:
+                hit = (x.func.attr, x.args[0] if x.args else None)
+            elif isinstance(x, ast.Attribute) and x.attr in TABLES:
+                hit = (x.attr, None)
+            if hit is None:
+                continue
+            nset += 1
+            run.ob("R5", f"{m.name}:{hit[0]}")
+            ok = id(x) in inside and hit[1] is not None and dotted(hit[1]) == owner.args.args[0].arg
+            if not ok:
+                run.violate("R5", f"{m.name}:{hit[0]}:{norm(x, 60)}", m, x,
+                            f"`{norm(x, 70)}` writes the unit system's per-quantity table outside Quantity.__init__(self): an existing quantity - a catalogue constant "
+                            f"included - can get a new value or dimension after import, so its value no longer is the reference value")
+    run.floor("R5", nset, 2, "writers of the unit system's quantity tables")
+    from .c03 import _i3_idgen
+    _i3_idgen(run)
